@@ -27,6 +27,11 @@ E = "_expand_decay_modes"
 def run(ctx, ss):
     for r, f in (("C10.1", c10_1), ("C10.2", c10_2), ("C10.3", c10_3), ("C10.4", c10_4)):
         ctx.guard(r, f, ss)
+    # the expansion is computed from the chain dictionary of build_decay_chains: share its lookup / purity clauses
+    from .c05 import _as
+    from .c09 import c09_5, no_state_effects
+    ctx.guard("C10.5", lambda c, s: _as(c, s, c09_5, "C10.5"), ss)
+    ctx.guard("C10.5", lambda c, s: no_state_effects(c, s, "C10.5", pf.func(s, DEC, "DecFileParser.expand_decay_modes")), ss)
 
 
 def _product_call(ff):
@@ -256,6 +261,16 @@ def c10_4(ctx, ss):
         ok = (lo, hi) == (1, 1) and "format_descriptor(" in pt
     (ctx.holds if ok else ctx.violation)("C10.4", k + " :: once", where(ff, adds[0] if adds else ff.node),
                                          "exactly one descriptor is added per element of the product" if ok else "descriptors are not added exactly once per element of the product")
+    # the expansion is stored back into the chain dictionary: that is how the parent level reads its daughters' descriptors
+    sb = [s_ for s_ in pf.iter_stmts(ff.node.body) if isinstance(s_, ast.Assign) and isinstance(s_.targets[0], ast.Subscript)
+          and txt(s_.targets[0].value) == "decay_chain" and txt(s_.value) == rn]
+    oksb = len(sb) == 1 and flow.text(sb[0].targets[0].slice) in ("next(iter(decay_chain.keys()))", "next(iter(decay_chain))") and flow.cfg.must_pass({flow.cfg.node_of(sb[0])})
+    (ctx.holds if oksb else ctx.violation)("C10.4", k + " :: store-back", where(ff, sb[0] if sb else ff.node),
+                                           "the descriptors replace the mode list in the chain dictionary (read by the enclosing level)" if oksb
+                                           else "the descriptors are not stored back under the chain's own key: the enclosing level would multiply out raw mode dictionaries")
+    dflt = {a.arg: d for a, d in zip(ff.node.args.kwonlyargs, ff.node.args.kw_defaults)}
+    okt = "top" in dflt and isinstance(dflt["top"], ast.Constant) and dflt["top"].value is True
+    (ctx.holds if okt else ctx.violation)("C10.4", k + " :: top-default", where(ff, ff.node), "top defaults to True" if okt else "`top` no longer defaults to True: top-level descriptors are rendered like nested ones")
     init = single_def(flow, rets[0].value)
     ok_init = init is not None and init.kind in ("assign", "aug")
     # the accumulator must be initialised empty outside the mode loop
